@@ -38,17 +38,33 @@ def loop_template(tape):
     not enough (value-stack slots of two iterations)."""
     n = 2 + tape.choose(3)
     items = ", ".join("W.m(F, %d, 'S', (), (), 0, 0)" % k for k in range(n))
+    serial = [100]
+
+    def park():
+        # directly in a C call (the frame does not record its stack top then), or through a
+        # Python helper (it does: the interpreter saves it when it calls Python code)
+        if tape.choose(2):
+            return "W.rel(); W.acq()"
+        serial[0] += 1
+        return "W.probe(F, %d)" % serial[0]
+
     lines = [
         "def f0(W):",
         "    F = W.frame('f0')",
         "    for i0 in range(%d):" % (4 + tape.choose(8)),
         "        with %s:" % items,
-        "            W.rel(); W.acq()",
+        "            " + park(),
     ]
     if tape.choose(2):
-        lines.append("            W.rel(); W.acq()")
+        lines.append("            " + park())
+    if tape.choose(2):
+        # ... and parks in the loop but outside the with block: the frame keeps coming back to
+        # the same instruction, with other stack depths in between
+        lines.append("        " + park())
+        if tape.choose(2):
+            lines.insert(3, "        " + park())
     if tape.choose(3) == 0:
-        lines.append("    W.rel(); W.acq()")
+        lines.append("    " + park())
     return "\n".join(lines) + "\n"
 
 
